@@ -1,6 +1,6 @@
 SPECIFICATION Spec
 CONSTANTS
-  Mode = "vals"
+  Mode = "shape"
   MaxD = 3
   NonPerSides = {0, 1, 2, 3}
   PerSides = {2, 3}
